@@ -2,7 +2,7 @@
 from vlib import core, text_oracles
 
 # PrintSpec: the printer writes exactly the message's slices, in order, through its 2056-byte buffer (C19_printed_eq_written, C13_parts_bytes)
-MODS = ['S4V.Props.SyslSpec', 'S4V.Props.LinesSpec', 'S4V.Props.CacheSpec', 'S4V.Props.SyslCacheSpec', 'S4V.Props.SearchSkelSpec', 'S4V.Props.PrintSpec', 'S4V.Props.LineSkelSpec', 'S4V.Props.GateSkelSpec']
+MODS = ['S4V.Props.SyslSpec', 'S4V.Props.LinesSpec', 'S4V.Props.CacheSpec', 'S4V.Props.SyslCacheSpec', 'S4V.Props.SearchSkelSpec', 'S4V.Props.PrintSpec', 'S4V.Props.LineSkelSpec', 'S4V.Props.GateSkelSpec', 'S4V.Props.LineSkel2Spec']
 LEVEL_NOTE = ("Proved for every parser P, every byte string and every block size: lines tile the file (lines_partition, findLine_spec), messages "
               "(a timestamped line + following lines) are contiguous, start at the first timestamped line and end at the last byte (messages_partition), "
               "find_sysline returns the message containing the offset (findSysline_spec) and the streaming loop emits every message exactly once in file order "
@@ -28,7 +28,7 @@ def oracle(ctx):
 
 
 def check(ctx):
-    return core.standard_check(ctx, ['Blocks', 'Filter', 'Consts', 'Print', 'SyslCache', 'Search', 'Lines', 'LinesMutants', 'Gate', 'GateMutants'], MODS,
+    return core.standard_check(ctx, ['Blocks', 'Filter', 'Consts', 'Print', 'SyslCache', 'Search', 'Lines', 'LinesMutants', 'Lines2', 'Lines2Mutants', 'Gate', 'GateMutants'], MODS,
                                [('sysl', 1500, 20000), ('syslc', 6000, 60000), ('srch', 600, 4000), ('line', 800, 8000), ('lskel', 1500, 10000), ('gskel', 150, 2000), ('gate', 150, 2000), ('proc', 400, 6000), ('prt', 600, 8000)], oracle, LEVEL_NOTE, ASSUME)
 
 
